@@ -54,7 +54,7 @@ def queryParam (explode required : Bool) (name : Str) (sh : Shape) (fields : Lis
 
 /-- stimulus: 0 absent, 1 valid, 2 wrong type, 3 overflow, 4 bad date, 5 bad uuid, 6 malformed JSON,
 7 wrong label/matrix prefix, 8 duplicated header, 9 empty value (typed), 10 malformed percent-escape (path),
-11 valid with '%' and '+' (header, cookie). -/
+11 valid with '%' and '+' (header, cookie), 12 a complete JSON value followed by more data. -/
 structure Row where
   fw : Nat
   loc : Nat         -- 0 path 1 query 2 header 3 cookie
